@@ -193,9 +193,9 @@ class HamiltonianContext(Context):
     def revert_state(self) -> None:
         """Revert the context to the last saved state, restoring the last momenta and
         kinetic energy."""
-        self.atoms.set_array("momenta", self.last_momenta.copy(), float, (3,))
-
         super().revert_state()
+
+        self.atoms.set_array("momenta", self.last_momenta.copy(), float, (3,))
 
     def to_dict(self) -> dict[str, Any]:
         """
